@@ -40,7 +40,8 @@ def maybe(rng, d, key, val, p=0.5):
 def gen_lexicon(rng, lid, version, lang, ilis, lmfv, size=4, requires=None):
     v11 = lmfv != '1.0'
     lex = {'id': lid, 'label': rng.choice(['Label of ' + lid, 'L & "q" <' + lid + '>', 'The wordnet called "' + lid + '"',
-                                         "wordnet of the Joneses'", '"' + lid + '" it is']), 'language': lang,
+                                         "wordnet of the Joneses'", '"' + lid + '" it is', 'Col A\tCol B of ' + lid,
+                                         'two\nlines\rof ' + lid]), 'language': lang,
            'email': 'a@b.c', 'license': rng.choice(['CC-BY', 'https://l/?a=1&b=2']), 'version': version,
            'meta': meta(rng), 'entries': [], 'synsets': []}
     maybe(rng, lex, 'url', rng.choice(['https://ex.org/' + lid, 'https://ex.org/?version="3"', "http://x/id='y'"]))
